@@ -182,7 +182,7 @@ def corpus():
 
 
 def cases(rng, tier):
-    ndag, nun, nrt, maxn = (22, 12, 5, 10) if tier == "quick" else (200, 20, 8, 16)
+    ndag, nun, nrt, maxn = (22, 12, 3, 10) if tier == "quick" else (160, 20, 6, 16)
     dags = list(FIXED)
     for _ in range(ndag):
         dags.append(daglib.gen_dag(rng, rng.randint(2, maxn), p_merge=0.45))
@@ -220,7 +220,10 @@ def cases(rng, tier):
         base = {"kind": "localseq", "g": g, "tip": tip, "tp": _tree_parents(rng, g, tip), "tags": _tags(rng, g),
                 "master": {"tip": rng.choice(lh), "tags": _tags(rng, g)}, "ncommit": j,
                 "newtag": rng.random() < 0.5, "keep_tags": rng.random() < 0.2}
-        for k in range(daglib.revno_of(g, tip) + j + 1):
+        n0 = daglib.revno_of(g, tip)
+        # every depth in the thorough tier; quick: the local commits, one revision below them, and everything
+        ks = range(n0 + j + 1) if tier != "quick" else sorted({0, max(0, n0 - 1)} | set(range(n0, n0 + j + 1)))
+        for k in ks:
             yield dict(base, k=k, local=True)
         yield dict(base, k=daglib.revno_of(g, tip), local=False)
         yield dict(base, k=daglib.revno_of(g, tip) + j - 1, local=False)
